@@ -182,6 +182,9 @@ pub struct OpRecord {
     /// the operation ran on a sampler that was restored from its durable form
     pub on_restored: bool,
     pub trace: Option<Vec<ctx::Ev>>,
+    /// reference only: a second acceptable outcome (an operation with an injected
+    /// unwind may also complete, if the call happens to make fewer callbacks)
+    pub alt: Option<Outcome>,
 }
 
 fn current2(env: &Env, cs: &ClientState, e: usize) -> (Arc<dyn Sampler>, bool) {
@@ -260,6 +263,7 @@ fn exec_on(envs: &[Arc<Env>], e: usize, cs: &mut ClientState, op: &Op, record_tr
             fired_at: vec![],
             on_restored: false,
             trace: None,
+            alt: None,
         });
         f.events = total;
         return f;
@@ -401,6 +405,7 @@ fn exec_on(envs: &[Arc<Env>], e: usize, cs: &mut ClientState, op: &Op, record_tr
         fired_at: st.fired.iter().map(|(_, _, k)| *k).collect(),
         on_restored,
         trace: st.trace,
+        alt: None,
     }
 }
 
@@ -685,6 +690,17 @@ pub fn run_scenario(sc: &Scenario, opts: &RunOpts) -> RunReport {
                     r.outcome = x.outcome;
                     r.aux = vec![native];
                 }
+                Op::Aborted { point, ed, st, .. } | Op::AbortedAny { point, ed, st, .. } => {
+                    // the number of callbacks a call makes is not constrained by the
+                    // property (a one-off self check, say): the injected unwind may or
+                    // may not be reached; the completed result is acceptable as well
+                    let plain = reference(spec_e, refs, &Op::SampleX { point: point.clone(), ed: ed.clone(), st: st.clone() });
+                    r.alt = Some(plain.outcome);
+                }
+                Op::AbortedRng { seed, kind, ed, st, .. } => {
+                    let plain = reference(spec_e, refs, &Op::SampleRng { seed: *seed, kind: *kind, ed: ed.clone(), st: st.clone() });
+                    r.alt = Some(plain.outcome);
+                }
                 Op::Burst { .. } => {
                     if let Outcome::Err(m) = &r.outcome {
                         if m.starts_with("burst diverged") {
@@ -929,7 +945,11 @@ pub fn run_scenario(sc: &Scenario, opts: &RunOpts) -> RunReport {
             digest = mix(digest, hash_str(&format!("{:?}", r.outcome)));
             let exp = &ref_out[ci][oi];
             let inner = op.strip().1;
-            if !exp.outcome.same(&r.outcome) {
+            let aborted_kind = matches!(inner, Op::Aborted { .. } | Op::AbortedAny { .. } | Op::AbortedRng { .. });
+            let acceptable = exp.outcome.same(&r.outcome)
+                || (aborted_kind
+                    && (matches!(r.outcome, Outcome::Aborted) || exp.alt.as_ref().map(|a| a.same(&r.outcome)).unwrap_or(false)));
+            if !acceptable {
                 let class = match inner {
                     Op::Restart { .. } => "restored-sampler-differs",
                     Op::Build => "build-not-deterministic",
